@@ -184,6 +184,9 @@ def main():
     inconc = list(res.get('inconclusive', []))
     for u in gate_unsupported[:5]:
         inconc.append('conformance corpus input not interpretable: ' + u[:200])
+    if tier == 'quick' and ex.GLOBAL_STATS['truncated']:
+        # the quick tier is sized to finish; running out of the wall budget means the stated bound was not covered
+        inconc.append('exploration cut by the wall budget before the stated bound was covered (%d exploration(s))' % ex.GLOBAL_STATS['truncated'])
     for f in nonrepro:
         inconc.append('solver model did not reproduce natively: %s [%s] %s' % (f['desc'], f['key'], f.get('witness_text', '')))
     if rc == 0 and inconc:
